@@ -642,7 +642,7 @@ func (m *RpcServer) ControlEnvironment(cxt context.Context, req *pb.ControlEnvir
 		if err != nil {
 			log.WithField("partition", env.Id()).Warnf("could not complete requested GO_ERROR transition, forcing move to ERROR: %s", err.Error())
 			verifhook.Point("api.force.error", "env", env.Id().String(), "from", env.Sm.Current())
-			env.Sm.SetState("ERROR")
+			env.ForceState("ERROR")
 		}
 	}
 
